@@ -29,7 +29,7 @@ Proof.
   rewrite Hraw. clear Hraw.
   set (low := before_semicolon (lower (c0 :: rest))).
   destruct (fields (commas_to_spaces low)) as [|f0 [|f1 [|f2 [|f3 [|f4 [|f5 r]]]]]] eqn:Ef.
-  - intros E; inversion E; subst; split; assumption.
+  - destruct (fields low); [intros E; inversion E; subst; split; assumption|discriminate].
   - destruct (text_eqb f0 _); [discriminate|]. destruct (text_eqb f0 _); discriminate.
   - destruct (text_eqb f0 _); [|discriminate].
     destruct (parse_int 32 f1) as [v|]; [|discriminate].
@@ -75,7 +75,7 @@ Proof.
   rewrite Hraw. clear Hraw.
   set (low := before_semicolon (lower (c0 :: rest))).
   destruct (fields (commas_to_spaces low)) as [|f0 [|f1 [|f2 [|f3 [|f4 [|f5 r]]]]]] eqn:Ef.
-  - intros E; inversion E; subst; split; assumption.
+  - destruct (fields low); [intros E; inversion E; subst; split; assumption|discriminate].
   - repeat match goal with |- context [text_eqb f0 ?x] => destruct (text_eqb f0 x) end; cbn [negb orb]; discriminate.
   - repeat match goal with |- context [text_eqb f0 ?x] => destruct (text_eqb f0 x) end; cbn [negb orb andb]; try discriminate.
     all: destruct (parse_int 32 f1) as [v|]; [|discriminate].
@@ -111,8 +111,8 @@ Proof.
   { intros X Y. destruct c0 as [|p]; [reflexivity|].
     do 6 (destruct p as [p|p|]; try reflexivity). exfalso. apply Hne. reflexivity. }
   rewrite Hraw. clear Hraw.
-  destruct (fields _) as [|f0 [|f1 [|f2 [|f3 [|f4 [|f5 r]]]]]]; try discriminate;
-    try (destruct (negb _); discriminate).
+  destruct (fields (commas_to_spaces _)) as [|f0 [|f1 [|f2 [|f3 [|f4 [|f5 r]]]]]]; try discriminate;
+    try (destruct (negb _); discriminate); try (destruct (fields (before_semicolon _)); discriminate).
   - repeat match goal with |- context [text_eqb f0 ?x] => destruct (text_eqb f0 x) end; cbn [negb orb]; discriminate.
   - repeat match goal with |- context [text_eqb f0 ?x] => destruct (text_eqb f0 x) end; cbn [negb orb andb]; try discriminate.
     all: destruct (parse_int 32 f1) as [z|]; [|discriminate].
@@ -243,7 +243,8 @@ Proof.
   destruct raw as [|c0 rest]; [reflexivity|].
   destruct (N.eqb_spec c0 59) as [->|Hne]; [reflexivity|].
   rewrite !(raw_match c0 rest) by assumption.
-  destruct (fields _) as [|f0 [|f1 [|f2 [|f3 [|f4 [|f5 r]]]]]] eqn:Ef; try reflexivity; try exact I.
+  cbv zeta. destruct (fields (commas_to_spaces _)) as [|f0 [|f1 [|f2 [|f3 [|f4 [|f5 r]]]]]] eqn:Ef; try reflexivity; try exact I;
+    try (destruct (fields (before_semicolon _)); [reflexivity|exact I]).
   - destruct (text_eqb f0 (s2t "end")); [reflexivity|]. destruct (text_eqb f0 (s2t "org")); exact I.
   - destruct (text_eqb f0 (s2t "org")) eqn:Eo; [|exact I].
     destruct (parse_int 32 f1) as [v|]; [|exact I]. destruct (v <? 0)%Z; [exact I|].
@@ -287,8 +288,8 @@ Proof.
   destruct raw as [|c0 rest]; [reflexivity|].
   destruct (N.eqb_spec c0 59) as [->|Hne]; [reflexivity|].
   rewrite !(raw_match c0 rest) by assumption.
-  destruct (fields _) as [|f0 [|f1 [|f2 [|f3 [|f4 [|f5 r]]]]]] eqn:Ef; try reflexivity;
-    try (destruct (negb _); exact I).
+  cbv zeta. destruct (fields (commas_to_spaces _)) as [|f0 [|f1 [|f2 [|f3 [|f4 [|f5 r]]]]]] eqn:Ef; try reflexivity;
+    try (destruct (negb _); exact I); try (destruct (fields (before_semicolon _)); [reflexivity|exact I]).
   - destruct (text_eqb f0 (s2t "end")) eqn:Ee, (text_eqb f0 (s2t "org")) eqn:Eo; cbn [negb orb]; try exact I; reflexivity.
   - destruct (text_eqb f0 (s2t "end")) eqn:Ee, (text_eqb f0 (s2t "org")) eqn:Eo; cbn [negb orb andb]; try exact I.
     + apply text_eqb_eq in Eo, Ee. subst. discriminate.
